@@ -25,7 +25,7 @@ type C07Script struct{}
 
 func (e *C07Script) Name() string { return "sim.c07-script" }
 func (e *C07Script) Rule() string {
-	return "scripted failed canaries x seeded (4-7 nodes, assignment mode, canary on a node the active template can / cannot use (the canary template tolerates a taint the active one does not), failure by kubectl-eds canary fail / by restarts, paused before or not): template edit, canary pod Ready and labelled, failure, cooperative rounds, three minutes, more rounds; judged: one Ready pod of the active template on every node it can use and no other daemon pod, spec.template restored, status.canary cleared, status.activeReplicaSet unchanged, failed replica set collected; non-trivial = distinct (nodes, mode, canary node usable, failure kind, paused) tuples"
+	return "scripted failed canaries x seeded (4-7 nodes, assignment mode, canary on a node the active template can / cannot use (the canary template tolerates a taint the active one does not), failure by kubectl-eds canary fail / by restarts, paused before or not, canary replica set new or formerly active): template edit, canary pod Ready and labelled, failure, cooperative rounds, three minutes, more rounds; judged: one Ready pod of the active template on every node it can use and no other daemon pod, spec.template restored, status.canary cleared, status.activeReplicaSet unchanged, failed replica set collected; non-trivial = distinct (nodes, mode, canary node usable, failure kind, paused) tuples"
 }
 func (e *C07Script) Cases(tier string, _ int64) int {
 	if tier == "thorough" {
@@ -44,6 +44,12 @@ func (e *C07Script) Run(ctx *core.Ctx, idx int) {
 	usable := idx%2 == 0
 	byCmd := (idx/2)%2 == 0
 	paused := (idx/4)%2 == 0
+	// one case in five: the canary replica set is one that has been the active one before (the template is taken
+	// back to an earlier one after another had been promoted); the canary node is then usable by both templates
+	formerlyActive := idx%5 == 4
+	if formerlyActive {
+		usable = true
+	}
 	w := NewWorld(ctx, kit.CtlOpts{Affinity: aff})
 	for i := 0; i < n; i++ {
 		nd := kit.Node(fmt.Sprintf("n%d", i), map[string]string{"zone": []string{"a", "b"}[i%2]})
@@ -76,14 +82,42 @@ func (e *C07Script) Run(ctx *core.Ctx, idx int) {
 		ctx.Count("C07.script-setup-failed")
 		return
 	}
-	activeBefore := kit.GetEDS(w.S, "ns1", "foo").Status.ActiveReplicaSet
+	live := "A"
 	tb := kit.Tpl("B")
 	tb.Spec.Tolerations = []corev1.Toleration{{Key: "dedicated", Operator: corev1.TolerationOpExists, Effect: corev1.TaintEffectNoSchedule}}
+	if formerlyActive {
+		// A active -> Z promoted by explicit validation -> template taken back to A while Z is still rolling out: the
+		// replica set of A, active a moment ago, is reused and is the canary now
+		w.SetTemplate("ns1", "foo", kit.Tpl("Z"))
+		rounds(6)
+		if err := w.Kubectl("canary-validate", "ns1", "foo"); err != nil {
+			ctx.Count("C07.script-setup-failed")
+			return
+		}
+		// (the rolling update to Z is still in progress: the replica set of A still reports pods, so it still exists
+		// and is reused when the template goes back to A)
+		rounds(3)
+		eZ := kit.GetEDS(w.S, "ns1", "foo")
+		stillThere := false
+		for _, rs := range kit.RSs(w.S) {
+			if kit.MarkerOfTemplate(&rs.Spec.Template) == "A" && rs.DeletionTimestamp == nil {
+				stillThere = true
+			}
+		}
+		if eZ.Status.Canary != nil || !stillThere {
+			ctx.Count("C07.script-setup-failed")
+			return
+		}
+		live = "Z"
+		tb = kit.Tpl("A")
+	}
+	canaryMarker := kit.MarkerOfTemplate(&tb)
+	activeBefore := kit.GetEDS(w.S, "ns1", "foo").Status.ActiveReplicaSet
 	w.SetTemplate("ns1", "foo", tb)
 	rounds(8)
 	var canaryPod *corev1.Pod
 	for _, p := range w.DaemonPods("ns1", "foo") {
-		if kit.MarkerOfPod(p) == "B" && kit.NodeOfPod(p) == canaryNode && kit.IsReady(p) {
+		if kit.MarkerOfPod(p) == canaryMarker && kit.NodeOfPod(p) == canaryNode && kit.IsReady(p) {
 			canaryPod = p
 		}
 	}
@@ -93,8 +127,8 @@ func (e *C07Script) Run(ctx *core.Ctx, idx int) {
 		return
 	}
 	failedRS := e0.Status.Canary.ReplicaSet
-	ctx.Distinct("nontrivial", fmt.Sprintf("%d|%v|%v|%v|%v", n, aff, usable, byCmd, paused))
-	attrs := map[string]string{"canaryNodeUsableByActiveTemplate": fmt.Sprint(usable), "failedBy": map[bool]string{true: "command", false: "restarts"}[byCmd], "pausedBefore": fmt.Sprint(paused)}
+	ctx.Distinct("nontrivial", fmt.Sprintf("%d|%v|%v|%v|%v|%v", n, aff, usable, byCmd, paused, formerlyActive))
+	attrs := map[string]string{"canaryOnAFormerlyActiveReplicaSet": fmt.Sprint(formerlyActive), "canaryNodeUsableByActiveTemplate": fmt.Sprint(usable), "failedBy": map[bool]string{true: "command", false: "restarts"}[byCmd], "pausedBefore": fmt.Sprint(paused)}
 	desc := map[string]any{"nodes": n, "affinityMode": aff, "canaryNode": canaryNode}
 	if paused {
 		_ = w.Kubectl("canary-pause", "ns1", "foo")
@@ -129,7 +163,7 @@ func (e *C07Script) Run(ctx *core.Ctx, idx int) {
 		ctx.Count("C07.script-auto-fail-did-not-fire")
 		return
 	}
-	if kit.MarkerOfTemplate(&e1.Spec.Template) != "A" {
+	if kit.MarkerOfTemplate(&e1.Spec.Template) != live {
 		fail("spec-template-not-restored", "spec.template is "+kit.MarkerOfTemplate(&e1.Spec.Template))
 		return
 	}
@@ -139,7 +173,7 @@ func (e *C07Script) Run(ctx *core.Ctx, idx int) {
 	if e1.Status.ActiveReplicaSet != activeBefore {
 		fail("active-replicaset-changed", e1.Status.ActiveReplicaSet+" was "+activeBefore)
 	}
-	if why := w.finalOK("ns1", "foo", "A"); why != "" {
+	if why := w.finalOK("ns1", "foo", live); why != "" {
 		fail("canary-pods-not-replaced", why)
 	}
 	if kit.GetRS(w.S, "ns1", failedRS) != nil {
